@@ -60,6 +60,7 @@ def main(tier, seed):
         R('shared3', fm.shared3(OrderMode='all', **chk), invariants=inv, simulate=3000 if q else None),
         R('wide', fm.wide(**chk), invariants=inv, simulate=2500 if q else 40000),
         R('wide-hr', fm.wide(na=2, **chk), invariants=inv, simulate=1500 if q else 20000),
+        R('four students, short lists', fm.four_short(**chk), invariants=inv, simulate=2000 if q else 30000),
     ]
     for r in runs:
         r['worker'] = replay_checker
